@@ -284,3 +284,110 @@ Definition conf_step (c : qconf) (o : conf_op) : qconf :=
 (** home: the IPMut is created from the same configuration value. *)
 Definition conf_init (enabled anon : bool) : qconf :=
   {| qc_enabled := enabled; qc_anon := anon; qc_mut := anon |}.
+
+(** * The object graph of the anonymiser: who holds which aghnet.IPMut *)
+(** An IPMut is a cell holding a function; the model keeps whether that
+    function is querylog.AnonymizeIP (true) or the no-op (false).  The heap
+    lists the cells allocated so far, a reference is the index of a cell. *)
+Definition heap := list bool.
+Definition ipmut := nat.
+
+(** aghnet.NewIPMut *)
+Definition new_ipmut (f : bool) (h : heap) : heap * ipmut := (h ++ [f], length h).
+(** IPMut.Load *)
+Definition mut_load (h : heap) (r : ipmut) : bool := nth r h false.
+(** IPMut.Store *)
+Fixpoint mut_store (r : ipmut) (f : bool) (h : heap) : heap :=
+  match h, r with
+  | [], _ => []
+  | _ :: h', O => f :: h'
+  | x :: h', S r' => x :: mut_store r' f h'
+  end.
+
+(** dnsforward.NewServer: the server keeps the IPMut of the caller
+    (DNSCreateParams.Anonymizer); only a nil one is replaced by a fresh no-op. *)
+Definition new_server (p_anonymizer : option ipmut) (h : heap) : heap * ipmut :=
+  match p_anonymizer with
+  | Some r => (h, r)
+  | None => new_ipmut false h
+  end.
+
+(** The running system as far as anonymisation goes. *)
+Record sys := {
+  s_heap : heap;
+  s_qlog_mut : ipmut;         (* queryLog.anonymizer: stored to by the two handlers, loaded by the report *)
+  s_srv_mut : ipmut;          (* Server.anonymizer: loaded by processQueryLogsAndStats *)
+  s_enabled : bool;           (* querylog conf.Enabled *)
+  s_anon : bool               (* querylog conf.AnonymizeClientIP: what the API and AdGuardHome.yaml show *)
+}.
+
+(** home.initDNS: config.anonymizer() makes ONE IPMut from the configured flag;
+    it is handed to querylog.New (Config.Anonymizer) and, through
+    initDNSServer, to dnsforward.NewServer. *)
+Definition init_dns (enabled anon : bool) : sys :=
+  let '(h, r) := new_ipmut anon [] in
+  let '(h', rs) := new_server (Some r) h in
+  {| s_heap := h'; s_qlog_mut := r; s_srv_mut := rs; s_enabled := enabled; s_anon := anon |}.
+
+(** The two configuration handlers of the query log (http.go): the function is
+    stored into the query log's IPMut. *)
+Definition sys_step (s : sys) (o : conf_op) : sys :=
+  match o with
+  | CPut e a =>
+      {| s_heap := mut_store (s_qlog_mut s) a (s_heap s); s_qlog_mut := s_qlog_mut s; s_srv_mut := s_srv_mut s;
+         s_enabled := e; s_anon := a |}
+  | CLegacy e a =>
+      {| s_heap := match a with Some b => mut_store (s_qlog_mut s) b (s_heap s) | None => s_heap s end;
+         s_qlog_mut := s_qlog_mut s; s_srv_mut := s_srv_mut s;
+         s_enabled := match e with Some b => b | None => s_enabled s end;
+         s_anon := match a with Some b => b | None => s_anon s end |}
+  end.
+
+(** s.anonymizer.Load() in processQueryLogsAndStats; l.anonymizer.Load() in
+    handleQueryLog (the report side). *)
+Definition srv_anon (s : sys) : bool := mut_load (s_heap s) (s_srv_mut s).
+Definition qlog_anon (s : sys) : bool := mut_load (s_heap s) (s_qlog_mut s).
+
+(** The view of the query log alone: the configuration record above. *)
+Definition sys_conf (s : sys) : qconf :=
+  {| qc_enabled := s_enabled s; qc_anon := s_anon s; qc_mut := qlog_anon s |}.
+
+(** * Histories with configuration requests as operations *)
+(** What a query meets besides the anonymiser and the enabled flag (registry,
+    leases, refuse_any, the two ignore engines: all may change between
+    queries). *)
+Record world := {
+  w_ix : index;
+  w_dhcp : addr -> option bytes;
+  w_refuse_any : bool;
+  w_qign : bytes -> bool;
+  w_sign : bytes -> bool
+}.
+
+(** The environment of the logging stage: the mutator is the one the SERVER holds. *)
+Definition env_at (s : sys) (w : world) : env :=
+  {| e_ix := w_ix w; e_dhcp := w_dhcp w; e_anon := srv_anon s; e_qlog_enabled := s_enabled s;
+     e_refuse_any := w_refuse_any w; e_qign := w_qign w; e_sign := w_sign w |}.
+
+(** The environment of GET /control/querylog: the mutator is the one the QUERY LOG holds. *)
+Definition env_report (s : sys) (w : world) : env :=
+  {| e_ix := w_ix w; e_dhcp := w_dhcp w; e_anon := qlog_anon s; e_qlog_enabled := s_enabled s;
+     e_refuse_any := w_refuse_any w; e_qign := w_qign w; e_sign := w_sign w |}.
+
+Inductive hop :=
+  | HConf (o : conf_op)               (* PUT /control/querylog/config/update, POST /control/querylog_config *)
+  | HQuery (w : world) (q : query)
+  | HFlush
+  | HRotate
+  | HRoll.
+
+Definition hstep (st : sys * store) (o : hop) : sys * store :=
+  match o with
+  | HConf c => (sys_step (fst st) c, snd st)
+  | HQuery w q => (fst st, process (env_at (fst st) w) q (snd st))
+  | HFlush => (fst st, flush (snd st))
+  | HRotate => (fst st, rotate (snd st))
+  | HRoll => (fst st, roll (snd st))
+  end.
+
+Definition hrun (ops : list hop) (st : sys * store) : sys * store := fold_left hstep ops st.
